@@ -575,6 +575,11 @@ func c33families(r *vk.Run) []c33fam {
 func TestVerifC33(t *testing.T) {
 	r := vk.Start(t, "C33")
 	defer r.Finish()
+	t0 := time.Now()
+	lap := func(what string) { // informational only (evidence): wall seconds per family in this shard
+		r.Set("seconds_"+what, int(time.Since(t0).Seconds()*10)/10.0)
+		t0 = time.Now()
+	}
 	for _, f := range c33families(r) {
 		f := f
 		complete := true
@@ -598,8 +603,15 @@ func TestVerifC33(t *testing.T) {
 		r.Set("family_"+strings.ReplaceAll(f.name, ".", "_"), fmt.Sprintf("stream window %s, depth %d, complete=%v", win, f.depth, complete))
 	}
 	// order in which the serve loop takes simultaneously pending inputs
+	lap("events")
 	c33selord(t, r, "selord.pool", 0)
 	c33selord(t, r, "selord.w16", 16)
+	lap("selord")
+	// exact-fit boundaries of the connection window on every processData path
+	c33fit(t, r, "fit.pool", 0)
+	c33fit(t, r, "fit.w1M", 1<<20)
+	lap("fit")
 	// closeStream against a handler inside RequestBody.Read (controlled scheduler)
 	c33race(t, r)
+	lap("race")
 }
